@@ -129,14 +129,28 @@ func (s *Scheduler) Retry(ctx context.Context, prev StepState) (state StepState,
 		},
 		DispatchErr: func(task def.Task, _ error) error {
 			fetched, err := s.repo.GetById(ctx, task.Id)
-			if err != nil && !def.IsDefError(err) {
+			if err != nil {
 				state = StateDispatchErr(task, err)
 				return err
 			}
-			if err != nil {
-				task = fetched
+			// Decide from what the task is now:
+			// the failed attempt may or may not have marked it as dispatched,
+			// and it may have been cancelled in the meantime.
+			switch fetched.State {
+			case def.TaskScheduled:
+				if fetched.ScheduledAt.After(s.clock.Now()) {
+					// It was postponed in the meantime. Leave it to the timer,
+					// which has to be restarted since its fire for this task is spent.
+					s.setGetNextResult(def.Task{}, ErrScheduleStoppedOrChanged)
+					return nil
+				}
+				state = s.dispatchTask(ctx, fetched, false)
+			case def.TaskDispatched:
+				state = s.dispatchTask(ctx, fetched, true)
+			default:
+				// cancelled or already finished: nothing is left to dispatch.
+				return nil
 			}
-			state = s.dispatchTask(ctx, task, true)
 			return state.Err()
 		},
 		Dispatched: func(id string) error {
